@@ -359,7 +359,11 @@ def flag_merge(ctx):
                     if has_call(direct(r), meth) and has(r, 'rule') and \
                             has_call(direct(l), 'flags_vars') and \
                             not has_call(direct(l), meth):
-                        ok = has_call(F.atoms(key, f), 'flags_vars')
+                        # every per-target flag is kept: not filtered
+                        # against the global flags (a later per-target
+                        # option must be able to override an earlier one)
+                        ok = has_call(F.atoms(key, f), 'flags_vars') and \
+                            not has_call(r, 'if')
             ctx.ob(R, '{}|target-{}=[global]+per-target'.format(fq, what),
                    ok, f.node, 'target {} are not [global variable] + '
                    'per-target flags'.format(what))
